@@ -4,12 +4,12 @@ import os
 import re
 import vlib
 
-GEN = "SPECIFICATION Spec\nCONSTANTS\n  MaxSmall = %d\n  CliffLens <- %s\nINVARIANTS Emit\nCHECK_DEADLOCK FALSE\n"
+GEN = "SPECIFICATION Spec\nCONSTANTS\n  MaxSmall = %d\n  CliffLens <- %s\n  WideLens <- %s\n  WideTypes <- %s\nINVARIANTS Emit\nCHECK_DEADLOCK FALSE\n"
 
 
 def run(ctx):
     q = ctx.quick
-    r = ctx.tlc("BoundaryMC", "gen.cfg", extra_files={"gen.cfg": GEN % (2 if q else 3, "CLq" if q else "CL")}, workers=1,
+    r = ctx.tlc("BoundaryMC", "gen.cfg", extra_files={"gen.cfg": GEN % (2 if q else 3, "CLq" if q else "CL", "WLq" if q else "WL", "WTq" if q else "WT")}, workers=1,
                 tag="signature-generation")
     sigs = r["emitted"]
     ctx.exhaustive = True
